@@ -152,9 +152,10 @@ pub fn opts_p() -> BOpts {
 pub fn opts_q() -> BOpts {
     BOpts::defaults()
 }
-/// R: two entries per hunk, small blocks, combined small files (multi-entry hunks for stitching).
+/// R: everything in one hunk, tiny blocks, both small files combined: several combined-block
+/// flushes inside one hunk group, and a multi-entry hunk for stitching.
 pub fn opts_r() -> BOpts {
-    BOpts::new(2, 8, 6)
+    BOpts::new(1000, 4, 8)
 }
 pub fn opts_of(idx: u8) -> BOpts {
     match idx {
@@ -193,7 +194,8 @@ impl Ev {
         };
         let o = match &self.op {
             Op::Backup(0) => "backup(P)".to_string(),
-            Op::Backup(_) => "backup(Q)".to_string(),
+            Op::Backup(1) => "backup(Q)".to_string(),
+            Op::Backup(_) => "backup(R)".to_string(),
             Op::Crashed(o, m) => format!("backup({}) killed before mutating op {m}", if *o == 0 { "P" } else { "R" }),
             Op::Delete(b) => format!("delete {b:?}"),
             Op::Gc => "gc".to_string(),
@@ -637,7 +639,13 @@ pub fn explore(
         let done = par_for(items.len(), budget, |w, i| {
             let (si, evs): (usize, Vec<Ev>) = match &items[i] {
                 Item::Single(si, op) => (*si, vec![Ev { set: None, op: op.clone() }]),
-                Item::Group(si, set) => (*si, vec![Ev { set: *set, op: Op::Backup(0) }, Ev { set: *set, op: Op::Backup(1) }]),
+                Item::Group(si, set) => {
+                    let mut evs = vec![Ev { set: *set, op: Op::Backup(0) }, Ev { set: *set, op: Op::Backup(1) }];
+                    if crash_r {
+                        evs.push(Ev { set: *set, op: Op::Backup(2) });
+                    }
+                    (*si, evs)
+                }
             };
             let st = &frontier[si];
             let mut trace_p = None;
